@@ -93,9 +93,9 @@ CHECKS.update({
         "note": "PARTIAL. Trusted: Coq kernel; Go harness (recording server with fault injection per request index, workload-controller and garbage-collector steps), Python driver. Not proved: multi-revision convergence under arbitrary fair schedules, workqueue fairness, real informers. Drift excludes stripping ownerReferences (re-adoption is refused by collision protection, C01) and is not repaired while paused (C09) or behind a collision (C01/C03). End states compare controllers (not demoted former owners) and ignore member status, which belongs to workload controllers.",
     },
     "C16": {
-        "technique": "Coq theorems over an executable model of one Package controller pass (pipeline of stages with oracle outcomes, every API request can fail before/after its effect; history invariant by induction) + differential correspondence of the real GenericPackageController/PackageDeployer request by request, monitor proved sound",
-        "text": "Stage-failure => no ObjectDeployment write, persisted conditions, hash short cut, template = render and the history invariant are proved for all oracle outcomes, stored states and histories (props/C16.v). The constraints clause was refuted for the code before fix cb58cda (witness kept) and is proved for the repaired Deploy. The real controller runs on generated packages, environments, edit sequences, pull failures and per-request API faults.",
-        "note": "Trusted: Coq kernel + vm_compute, Go harness (scripted puller, recording server, template identity = sha256 of canonical JSON vs a reference render), Python generator whose intended stage outcomes are the oracle. Assumed: spec hash collision free; packages small enough for no ObjectSlices; Package never deleted.",
+        "technique": "Coq theorems over an executable model of one Package controller pass (pipeline of stages with oracle outcomes; every API request can fail before/after its effect; a third party can write the ObjectDeployment before any request, giving Conflict and driving the RetryOnConflict loop; history invariant by induction) + differential correspondence of the real GenericPackageController/PackageDeployer request by request, monitor proved sound",
+        "text": "Stage-failure => no ObjectDeployment write, persisted conditions, hash short cut, template = render of the new spec (also after Conflict + re-Get + retry) and the history invariant are proved for all oracle outcomes, stored states, API-request outcomes, concurrent-writer schedules and histories (props/C16.v). The constraints clause is proved for the code as it is and refuted for the code before cb58cda (_v0_, witness kept). The real controller runs on generated packages, environments, edit sequences, pull failures, per-request API faults and concurrent writers before every request of the passes that write the deployment.",
+        "note": "Trusted: Coq kernel + vm_compute, Go harness (scripted puller, recording server, template identity = sha256 of canonical JSON vs a reference render), Python generator whose intended stage outcomes are the oracle. Assumed: spec hash collision free; packages small enough for no ObjectSlices; Package never deleted. Concurrent writer = metadata-only update of the ObjectDeployment.",
     },
     "C18": {
         "technique": "Coq theorems over an executable model of one ObjectTemplate controller pass (arbitrary render functions, kind tables, pre-states, lifted to all histories) + step-by-step differential correspondence of the real ObjectTemplate controllers (recording API server, real dynamiccache.Cache with scripted informers, real EnqueueWatchingObjects), monitor proved sound",
